@@ -88,7 +88,7 @@ def main():
         })
     m = {
         "version": 1,
-        "setup_cmd": "cd /verif/mc && CARGO_NET_OFFLINE=true cargo build --offline --profile checked --features hooks && CARGO_NET_OFFLINE=true cargo build --offline --features hooks",
+        "setup_cmd": "cd /verif/mc && CARGO_NET_OFFLINE=true cargo build --offline --profile checked --features hooks && CARGO_NET_OFFLINE=true cargo build --offline --features hooks,slim && CARGO_NET_OFFLINE=true cargo build --offline --release --features hooks,slim",
         "hooks": {
             "guard": "cargo feature `sophia_verif` (crates sophia_inmem, sophia_resource); off by default",
             "enable": "the harness crate /verif/mc depends on the /repo crates by path and enables sophia_inmem/sophia_verif and sophia_resource/sophia_verif through its feature `hooks` (./check always builds with --features hooks)",
